@@ -179,8 +179,11 @@ func (ir *issuanceRun) checkIssued(r *kernel.Run, fault string, cred *gabi.Crede
 		r.Violate("C06:nil-credential-without-error", det, "%s: ConstructCredential returned neither credential nor error", fault)
 		return
 	}
-	if !cred.Signature.Verify(pk, cred.Attributes) {
-		r.Violate("C06:credential-signature-invalid", det, "%s: credential signature does not verify over its attributes", fault)
+	// The holder of this world has no keyshare server: the signature must verify over exactly
+	// (secret, attributes) without any extra factor in the equation.
+	plain := &gabi.CLSignature{A: cred.Signature.A, E: cred.Signature.E, V: cred.Signature.V}
+	if !plain.Verify(pk, cred.Attributes) {
+		r.Violate("C06:credential-signature-invalid", det, "%s: credential signature does not verify over exactly (secret, attributes) (KeyshareP set: %v)", fault, cred.Signature.KeyshareP != nil)
 	}
 	if len(cred.Attributes) != len(ir.attrs)+1 || cred.Attributes[0].Cmp(ir.secret) != 0 {
 		r.Violate("C06:credential-attributes-wrong", det, "%s: secret or attribute count wrong", fault)
